@@ -216,6 +216,7 @@ def gen_mutate(rng, profile):
     shadow = copy.deepcopy(doc)
     nops = rng.randint(1, 10) if profile != "handles" else rng.randint(3, 12)
     nh = 0
+    nested_made = set()
     live = set()
     prev_paths = []
     for _ in range(nops):
@@ -268,11 +269,20 @@ def gen_mutate(rng, profile):
                 elif rr < 0.4 and steps:
                     steps = [["rec"]] + [["f", ["all", []]]] if rng.random() < 0.3 else steps
                 op = ["h.new", hid, steps, rng.randint(0, 2)]
+                nested_made.discard(hid)
                 nh += 1
             else:
                 hid = rng.choice(sorted(live)) if live and rng.random() < 0.9 else rng.randint(0, 3)
-                k = rng.choice(["h.assign", "h.assign", "h.del", "h.pop", "h.pop", "h.data", "h.parent"])
-                if k == "h.parent":
+                k = rng.choice(["h.assign", "h.assign", "h.del", "h.pop", "h.pop", "h.data", "h.parent", "h.nested"])
+                if k == "h.nested":
+                    # a search from the Match behind a live handle (whose container may have been replaced through it)
+                    nid = rng.randint(0, 3)
+                    live.add(nid)
+                    nested_made.add(nid)
+                    steps = rng.choice([[], [["gwc"]], [["wc"]], [["iwc"]], [["k", rng.choice(gen.KEYS)]], [["i", rng.choice([0, -1])]],
+                                        [["gwc"], ["f", ["all", []]]], [["f", ["all", []]]], [["k", "n"]]])
+                    op = [k, nid, hid, steps, rng.randint(0, 1)]
+                elif k == "h.parent":
                     # the parent Match of a live handle: replacing a container through it redirects the child's writes
                     nid = rng.randint(0, 3)
                     live.add(nid)
